@@ -3,6 +3,7 @@ package main
 import (
 	. "vh/lib"
 	"vh/lts"
+	"vh/transports"
 )
 
-func main() { Main(map[string]func(Val) Val{"C03_lts": lts.Run}) }
+func main() { Main(map[string]func(Val) Val{"C03_lts": lts.Run, "C03_transports": transports.Run}) }
